@@ -30,6 +30,7 @@ RULE = (
 ASSUMPTIONS = [
     "lattice + boundary points, not the continuum; no probe point lies closer than 0.1*tolerance to a decision boundary (guard band)",
     "agreement claimed when the same tolerance arguments are passed to all three checkers; linear mode compared on non-negative schedules",
+    "history block: the constraint set is edited (update same name / update first / remove / add) under a live Interface; after every edit the lattice + boundary points of the edited set are re-checked",
 ]
 CHUNK = 4
 ST = ["PS-A", "PS-B", "PS-C"]
@@ -135,6 +136,10 @@ def space(tier, seed):
                 for mode in (1, 2, 3):  # periods per schedule
                     items.append({"tpl": tname, "order": oi, "tol": ti, "T": mode})
     items.append({"tpl": "none", "order": 0, "tol": 0, "T": 0, "algos": True})
+    for tname in ("deltawye", "single", "fractional"):
+        for oi in range(len(ORDERS)):
+            for ti in (0, 3):
+                items.append({"tpl": tname, "order": oi, "tol": ti, "T": 1, "hist": True})
     return items
 
 
@@ -218,8 +223,68 @@ def run_algos(acc):
         acc.outcome(("algo", sched["kind"], type(tr.error).__name__))
 
 
+HIST_STEPS = [
+    # (operation, constraint position, new coefficients or None, limit factor)
+    ("update", -1, None, 0.5),  # last constraint, same name, halved limit
+    ("update", -1, {"PS-A": -1, "PS-B": 0.5, "PS-C": 1}, 0.8),  # last again: new mixed-sign current
+    ("update", 0, None, 0.6),  # first constraint, same name (moves to the end of the table)
+    ("remove", 0, None, None),
+    ("add", None, {"PS-A": 1, "PS-B": -1, "PS-C": 0.5}, None),
+    ("update", -1, None, 2.5),
+]
+
+
+def run_history(item, acc=None):
+    """the three checkers keep agreeing with the definition while the constraint set is edited
+    (the Interface object and its InfrastructureInfo were created BEFORE the edits)"""
+    viol = []
+    tname, order, tol = item["tpl"], ORDERS[item["order"]], TOLS[item["tol"]]
+    net, iface = build(tname, order, tol)
+    iface.infrastructure_info()
+    iface.get_constraints()
+    model = [(n, dict(c), l) for n, c, l in TEMPLATES[tname]["cons"]]
+    for k, (op, pos, coefs, fac) in enumerate(HIST_STEPS):
+        with warnings.catch_warnings():
+            warnings.simplefilter("ignore")
+            if op == "update":
+                n, c, l = model[pos]
+                c2 = dict(coefs) if coefs is not None else c
+                l2 = round(l * fac, 6) + 0.0137
+                net.update_constraint(n, Current(dict(c2)), l2)
+                del model[pos]
+                model.append((n, c2, l2))
+            elif op == "remove":
+                net.remove_constraint(model[pos][0])
+                del model[pos]
+            else:
+                net.add_constraint(Current(dict(coefs)), 27.7, name="added")
+                model.append(("added", dict(coefs), 27.7))
+        TEMPLATES["_hist"] = {"angles": TEMPLATES[tname]["angles"], "cons": model}
+        for tag, col in points("_hist", tol):
+            n0 = len(viol)
+            try:
+                exp, near = check_point("_hist", order, tol, net, iface, [col], viol, "after edit %d (%s) %s" % (k, op, tag))
+            except Exception as exc:
+                viol.append(("history:exception:%s" % type(exc).__name__, "checker raised %r after edit %d" % (exc, k), {"step": k}, repr(exc), None))
+                break
+            for i in range(n0, len(viol)):
+                sig, what, ctx, o, e = viol[i]
+                viol[i] = ("history:" + sig, what, {"step": k, "cols": [col]}, o, e)
+            if acc is not None:
+                acc.evals += 1
+                if exp is not None:
+                    acc.outcome(("hist", k, exp))
+                    if near <= 10:
+                        acc.nt(("hist", tname, item["order"], item["tol"], k, tag, tuple(round(v, 9) for v in col.values())))
+            if len(viol) > 20:
+                return viol
+    return viol
+
+
 def execute(item, acc=None, only=None):
     viol = []
+    if item.get("hist"):
+        return run_history(item, acc)
     if item.get("algos"):
         a = acc or Acc()
         run_algos(a)
@@ -274,6 +339,8 @@ def run(item):
 def replay(scn):
     if scn.get("algos"):
         return [{"signature": s, "what": w, "observed": o, "expected": e} for s, w, _, o, e in execute(scn)]
+    if scn.get("hist"):
+        return [{"signature": s, "what": w, "observed": o, "expected": e} for s, w, _, o, e in execute({k: scn[k] for k in ("tpl", "order", "tol", "T", "hist")})]
     only = scn.get("point", {}).get("cols")
     viol = execute({k: scn[k] for k in ("tpl", "order", "tol", "T")}, None, only=only)
     return [{"signature": s, "what": w, "observed": o, "expected": e} for s, w, _, o, e in viol]
